@@ -44,39 +44,25 @@ def dim(fn, t, depth=0):
             return "Level"
         if nm in ("unwrap_or", "unwrap_or_default", "unwrap_or_else") and t[2]:
             return dim(fn, t[2][0], depth + 1)
-        if nm in ("position", "rposition") and len(t[2]) == 2:
-            # the position of the first item satisfying p, in a range 0..n: an index in whatever space p reads its item
-            clo = canon.closure_fn(mir.CURRENT, t[2][1])[0] if mir.CURRENT is not None else None
-            src = strip(t[2][0])
-            if src[0] == "mutref" and len(t) > 3 and t[3]:
-                src = strip(fn.terms.state_in.get(t[3][0], {}).get(src[1]) or fn.terms.state_out.get(t[3][0], {}).get(src[1]) or src)
-            if src[0] == "mut" and len(src) > 3:      # the receiver as the call left it: look at what it was
-                src = strip(src[3])
-            while mir.is_call(src, "into_iter") or mir.is_call(src, "iter"):
-                src = strip(src[2][0])
-            if clo is not None and src[0] == "agg" and (src[2] or "").endswith("Range") and \
-                    strip(src[4][0]) == ("const", "usize", "0"):
-                item = ("param", 2)
-                uses = set()
-                for cs in clo.terms.calls:
-                    for i_, a in enumerate(cs.args):
-                        a0 = strip(a)
-                        while a0[0] == "cast":
-                            a0 = strip(a0[2])
-                        if a0 != item and not (a0[0] in ("deref", "copy") and strip(a0[1]) == item):
-                            continue
-                        if cs.callee.name in ("new", "new_usize") and "VarLabel" in cs.callee.key():
-                            uses.add("Label")
-                        elif cs.callee.name == "var_at_level":
-                            uses.add("Level")
-                        elif cs.callee.name in ("index", "index_mut") and i_ == 1:
-                            tab = show(strip(cs.args[0]))
-                            uses.add("Label" if tab.endswith("var_to_pos") else ("Level" if tab.endswith("pos_to_var") else "?"))
+        if nm in ("position", "rposition", "find") and len(t[2]) == 2:
+            # the position of the first item satisfying p, in a range 0..n (or the item itself, for `find` over any range):
+            # an index in whatever space p reads its item
+            uses, src = _range_item_uses(fn, t)
+            if uses is not None and (nm == "find" or strip(src[4][0]) == ("const", "usize", "0")):
                 if len(uses) == 1 and "?" not in uses:
-                    return uses.pop()
+                    return set(uses).pop()
+            return None
+        c = t[1]
+        if (c.local or getattr(c, "res_local", False)) and mir.CURRENT is not None and depth < 6:
+            # a crate function that returns an index: its own return term says in which space
+            gs = [g for g in mir.CURRENT.resolve(c) if g.kind != "Closure" and g.terms.ret is not None]
+            if len(gs) == 1 and gs[0] is not fn and _int_like(gs[0]):
+                return dim(gs[0], gs[0].terms.ret, depth + 4)
         return None
     if t[0] == "field" and t[2] == "0" and isinstance(t[1], tuple) and t[1][0] == "bin":
         return dim(fn, t[1], depth + 1)
+    if t[0] == "field" and t[2] == "0" and isinstance(t[1], tuple) and t[1][0] == "as" and t[1][2] == "Some":
+        return dim(fn, t[1][1], depth + 1)          # the payload of an Option<index>
     if t[0] == "bin" and t[1] in ("Add", "AddWithOverflow", "Sub", "SubWithOverflow"):
         a, b = strip(t[2]), strip(t[3])
         if b[0] == "const":
@@ -112,6 +98,61 @@ def dim(fn, t, depth=0):
                                 return "Level"
                             return elem_dim(fn, src[2][0], depth + 1)
     return None
+
+
+def _int_like(g):
+    """the function returns an integer or an Option of one"""
+    r = g.locals[0]["s"] if g.locals else ""
+    return any(h in r for h in ("usize", "u64", "u32"))
+
+
+def _core(t):
+    """t without casts, copies and ± constant"""
+    t = strip(t)
+    while isinstance(t, tuple) and t:
+        if t[0] == "cast":
+            t = strip(t[2])
+        elif t[0] in ("deref", "copy", "ref"):
+            t = strip(t[1])
+        elif t[0] == "field" and t[2] == "0" and isinstance(t[1], tuple) and t[1][0] == "bin":
+            t = strip(t[1])
+        elif t[0] == "bin" and t[1] in ("Add", "AddWithOverflow", "Sub", "SubWithOverflow") and strip(t[3])[0] == "const":
+            t = strip(t[2])
+        else:
+            break
+    return t
+
+
+def _item_uses(clo, item=("param", 2)):
+    """the index spaces in which a closure uses its item"""
+    uses = set()
+    for cs in clo.terms.calls:
+        for i_, a in enumerate(cs.args):
+            if _core(a) != item:
+                continue
+            if cs.callee.name in ("new", "new_usize") and "VarLabel" in cs.callee.key():
+                uses.add("Label")
+            elif cs.callee.name == "var_at_level":
+                uses.add("Level")
+            elif cs.callee.name in ("index", "index_mut") and i_ == 1:
+                tab = show(strip(cs.args[0]))
+                uses.add("Label" if tab.endswith("var_to_pos") else ("Level" if tab.endswith("pos_to_var") else "?"))
+    return uses
+
+
+def _range_item_uses(fn, t):
+    """for `range.position(p)` / `range.find(p)`: (spaces in which p uses its item, the Range term) or (None, None)"""
+    clo = canon.closure_fn(mir.CURRENT, t[2][1])[0] if mir.CURRENT is not None else None
+    src = strip(t[2][0])
+    if src[0] == "mutref" and len(t) > 3 and t[3]:
+        src = strip(fn.terms.state_in.get(t[3][0], {}).get(src[1]) or fn.terms.state_out.get(t[3][0], {}).get(src[1]) or src)
+    if src[0] == "mut" and len(src) > 3:      # the receiver as the call left it: look at what it was
+        src = strip(src[3])
+    while mir.is_call(src, "into_iter") or mir.is_call(src, "iter"):
+        src = strip(src[2][0])
+    if clo is not None and src[0] == "agg" and (src[2] or "").endswith("Range"):
+        return _item_uses(clo), src
+    return None, None
 
 
 def elem_dim(fn, t, depth=0):
@@ -284,7 +325,82 @@ def level_arguments(prog):
                                 "`%s` of %s is given %s, an index in *label* space: the callee uses it as a level of the variable "
                                 "order, and the two coincide only under the identity order" % (nm, g.name, show(a)[:60]) if d == "Label"
                                 else "`%s` of %s is given a %s" % (nm, g.name, d or "constant")))
+    # the converse: an argument whose space is known, handed to a crate function that uses the parameter in the other
+    # space (whatever the parameter is called): `first_unset_from(level)` scanning `VarLabel::new(i)` for i in level..n
+    for fn in prog.lib_fns:
+        if "::test" in fn.npath or fn.name.startswith("test") or not any(b["term"]["k"] == "call" for b in fn.blocks):
+            continue
+        for cs in fn.terms.calls:
+            c = cs.callee
+            if not (c.local or getattr(c, "res_local", False)) or cs.exp:
+                continue
+            gs = [g for g in prog.resolve(c) if g.kind != "Closure"]
+            if len(gs) != 1 or gs[0] is fn:
+                continue
+            g = gs[0]
+            for i, a in enumerate(cs.args):
+                d = dim(fn, a)
+                sa = show(a)
+                if d is None or "next(" in sa or "len(" in sa:
+                    # positions of an enumeration and lengths are levels only inside the order's own code
+                    continue
+                uses = param_uses(prog, g, i + 1)
+                if not uses or "?" in uses:
+                    continue
+                key = "%s:arg-space:%s#%s" % (fn.npath, g.name, g.arg_name(i + 1) or i + 1)
+                seen[key] = seen.get(key, 0) + 1
+                if seen[key] > 1:
+                    key += "#%d" % seen[key]
+                bad = d not in uses
+                out.append(inst("VO", key, VIOLATION if bad else OK, fn, cs.line,
+                                "%s is given %s, a %s, but uses that parameter as a %s (%s): the two index spaces coincide only "
+                                "under the identity order" % (g.name, show(a)[:50], d.lower(), "/".join(sorted(uses)).lower(),
+                                                              "a range over it feeds VarLabel::new" if "Label" in uses else "it reaches var_at_level / pos_to_var")
+                                if bad else "%s uses its parameter as a %s and is given one" % (g.name, d.lower())))
     return out
+
+
+_PU = {}
+
+
+def param_uses(prog, g, i, depth=0):
+    """the index spaces in which crate function g uses its integer parameter i: directly, ± a constant, as the start
+    of a range whose items a closure uses, or handed on to another crate function"""
+    k = (id(prog), g.npath, i)
+    if k in _PU:
+        return _PU[k]
+    _PU[k] = set()
+    uses = set()
+    if i >= len(g.locals) or not any(h in g.locals[i]["s"] for h in ("usize", "u64", "u32")) or "&" in g.locals[i]["s"]:
+        return uses
+    te = g.terms
+    me = ("param", i)
+    for cs in te.calls:
+        for j, a in enumerate(cs.args):
+            if _core(a) != me:
+                continue
+            nm = cs.callee.name
+            if nm in ("new", "new_usize") and "VarLabel" in cs.callee.key():
+                uses.add("Label")
+            elif nm == "var_at_level":
+                uses.add("Level")
+            elif nm in ("index", "index_mut") and j == 1:
+                tab = show(strip(cs.args[0]))
+                if tab.endswith("var_to_pos"):
+                    uses.add("Label")
+                elif tab.endswith("pos_to_var"):
+                    uses.add("Level")
+            elif (cs.callee.local or getattr(cs.callee, "res_local", False)) and depth < 3:
+                hs = [h for h in prog.resolve(cs.callee) if h.kind != "Closure"]
+                if len(hs) == 1 and hs[0] is not g:
+                    uses |= param_uses(prog, hs[0], j + 1, depth + 1)
+        if cs.callee.name in ("find", "position", "rposition", "any", "all", "filter", "map", "for_each", "take_while", "skip_while") \
+                and len(cs.args) == 2:
+            u, src = _range_item_uses(g, cs.term)
+            if u and src is not None and _core(src[4][0]) == me:
+                uses |= u
+    _PU[k] = uses
+    return uses
 
 
 def label_order(prog):
